@@ -678,16 +678,19 @@ static void vbi_proxyd_forward_data( int dev_idx )
          VERIF_TRACE("\"e\":\"cap\",\"id\":%d,\"n\":%d,\"refs\":%d,\"devsrv\":%u",
                      (int) p_buf->timestamp, p_buf->line_count, p_buf->ref_count, p_proxy_dev->all_services);
 
-         pthread_mutex_unlock(&p_proxy_dev->queue_mutex);
+         /* the queue mutex is kept until the buffer is appended below: a client which releases
+         ** the present tail meanwhile must find its successor, for which it is already counted */
          pthread_mutex_unlock(&proxy.clnt_mutex);
       }
-      else if (res < 0)
+      else
       {
-         /* XXX abort upon error (esp. EBUSY) */
-         perror("VBI read");
+         if (res < 0)
+         {
+            /* XXX abort upon error (esp. EBUSY) */
+            perror("VBI read");
+         }
+         pthread_mutex_lock(&p_proxy_dev->queue_mutex);
       }
-
-      pthread_mutex_lock(&p_proxy_dev->queue_mutex);
 
       if (p_buf->ref_count > 0)
          vbi_proxy_queue_add_tail(&p_proxy_dev->p_sliced, p_buf);
